@@ -83,7 +83,32 @@ func buildChain(r *lib.Rng, z *zoo) (*object, error) {
 		compose.WithLambdaOption(lopt{Val: "S"}).DesignateNode(pk[0], "z"),
 		compose.WithCallbacks(sharedHandler("sd")).DesignateNode(pk[1]),
 	}
+	d := &dGraph{}
+	d.node("t", fn1("FStrT", "t"), -1)
+	d.edge(compose.START, "t")
+	for _, k := range pk {
+		d.node(k, fn1("FStr", k), 0, "out="+k)
+		d.edge("t", k)
+		d.edge(k, "join")
+	}
+	d.node("join", fn1("FRender", "join"), -1)
+	d.branch("join", "BEvenOdd", "even", "odd")
+	d.node("even", fn1("FStr", "even"), 0)
+	d.node("odd", "FOdd", -1)
+	d.node("pt", "FPass", -1)
+	d.node("z", fn1("FStr", "z"), 0)
+	d.edge("even", "pt")
+	d.edge("odd", "pt")
+	d.edge("pt", "z")
+	d.edge("z", compose.END)
+	d.defaultMax()
+	mshared := []string{opT(0, "S", []string{pk[0]}, []string{"z"})}
 	return &object{
+		desc: d,
+		mcall: func(sp spec, si int) string {
+			return callTerm(vS(selfTag+strings.Repeat("ab", sp.In)+fmt.Sprint(sp.In)),
+				mWithShared(sp.Opt, mshared, mLambdaOpts(si, sp.Opt, pk[0], "z")), 0)
+		},
 		kind: "chain", shape: []string{fmt.Sprintf("parallel:%d", w)},
 		nIn: 5, paras: allParas,
 		optSet:  []int{0, optLambdaDesignated, optLambdaGlobal, optCbGlobal, optCbThree | optCbDesignated, optCtxHandlers | optLambdaDesignated, optShared, optShared | optLambdaGlobal | optCbGlobal},
@@ -222,7 +247,26 @@ func buildState(r *lib.Rng, z *zoo) (*object, error) {
 		compose.WithCallbacks(sharedHandler("so")),
 		compose.WithCallbacks(sharedHandler("sd")).DesignateNode(par[0]),
 	}
+	d := &dGraph{dag: dag, state: true}
+	d.node("a", fn1("FV", "a"), 0, "pre="+fn1("HPreSt", "a"), "post="+fn1("HPostSt", "a"))
+	d.edge(compose.START, "a")
+	for _, k := range par {
+		d.node(k, fn1("FStW", k), -1, "out="+k, "pre="+fn1("HPreSt", k))
+		d.edge("a", k)
+		d.edge(k, "j")
+	}
+	d.node("j", fn1("FJoinV", "j"), -1, "pre=HSPreJ")
+	d.node("fin", "FFin", -1)
+	d.edge("j", "fin")
+	d.edge("fin", compose.END)
+	d.defaultMax()
+	mshared := []string{opT(0, "S", []string{"a"})}
 	return &object{
+		desc: d,
+		mcall: func(sp spec, si int) string {
+			return callTerm(vR(selfTag, 0, sp.In, fmt.Sprintf("in%d", sp.In)),
+				mWithShared(sp.Opt, mshared, mLambdaOpts(si, sp.Opt, "a")), 0)
+		},
 		kind: "state", shape: []string{fmt.Sprintf("dag:%v", dag), fmt.Sprintf("writers:%d", w)},
 		nIn: 4, paras: allParas,
 		optSet:  []int{0, optLambdaDesignated, optCbGlobal, optCbThree | optCbDesignated, optCtxHandlers, optShared, optShared | optLambdaDesignated | optCbDesignated},
@@ -239,6 +283,8 @@ func buildState(r *lib.Rng, z *zoo) (*object, error) {
 
 func buildNested(r *lib.Rng, z *zoo) (*object, error) {
 	depth3 := z.flag("depth3", r.Chance(2, 3))
+	// the SAME graph object added under two node keys (compiled once per node), or two copies
+	sameSub := z.flag("samesub", r.Chance(1, 2))
 	must := &errs{}
 
 	mkSub := func() *compose.Graph[V, V] {
@@ -297,8 +343,13 @@ func buildNested(r *lib.Rng, z *zoo) (*object, error) {
 
 	outer := compose.NewGraph[V, V](compose.WithGenLocalState(z.genState))
 	must.add(outer.AddLambdaNode("o", compose.InvokableLambdaWithOption(z.nodeVOpt("o"))))
-	must.add(outer.AddGraphNode("sub", mkSub()))
-	must.add(outer.AddGraphNode("sub2", mkSub())) // a second copy, in parallel
+	sub1 := mkSub()
+	sub2 := sub1
+	if !sameSub {
+		sub2 = mkSub()
+	}
+	must.add(outer.AddGraphNode("sub", sub1))
+	must.add(outer.AddGraphNode("sub2", sub2)) // in parallel with the first
 	must.add(outer.AddLambdaNode("oj", compose.InvokableLambda(func(ctx context.Context, in map[string]any) (V, error) {
 		v, err := z.joinV("oj")(ctx, in)
 		if err != nil {
@@ -339,8 +390,57 @@ func buildNested(r *lib.Rng, z *zoo) (*object, error) {
 		shared = append(shared, compose.WithLambdaOption(lopt{Val: "S3"}).DesignateNodeWithPath(compose.NewNodePath("sub", "inner", "x0")))
 	}
 	shared = shared[:len(shared):len(shared)]
+	dInner := &dGraph{dag: true}
+	for _, k := range []string{"x0", "x1"} {
+		dInner.node(k, fn1("FV", "inner."+k), 0, "out="+k)
+		dInner.edge(compose.START, k)
+		dInner.edge(k, "xj")
+	}
+	dInner.node("xj", "FInnerXj", -1)
+	dInner.edge("xj", compose.END)
+	dSub := &dGraph{state: true}
+	dSub.node("y", fn1("FV", "sub.y"), 0, "pre="+fn1("HPreLog", "sub.y"))
+	dSub.edge(compose.START, "y")
+	if depth3 {
+		dSub.node("inner", "(FSub "+dInner.term()+")", -1)
+		dSub.edge("y", "inner")
+		dSub.edge("inner", "yf")
+	} else {
+		dSub.edge("y", "yf")
+	}
+	dSub.node("yf", "FSubYf", -1)
+	dSub.edge("yf", compose.END)
+	dSub.defaultMax()
+	d := &dGraph{dag: true, state: true}
+	d.node("o", fn1("FV", "o"), 0)
+	d.node("sub", "(FSub "+dSub.term()+")", -1)
+	d.node("sub2", "(FSub "+dSub.term()+")", -1)
+	d.node("oj", "FOj", -1)
+	d.node("k1", fn1("FV", "k1"), -1, "out=k1")
+	d.node("k2", fn1("FV", "k2"), -1, "out=k2")
+	for _, e := range [][2]string{{compose.START, "o"}, {"o", "sub"}, {"o", "sub2"}, {"sub", "k1"}, {"sub2", "k2"}, {"k1", "oj"}, {"k2", "oj"}, {"oj", compose.END}} {
+		d.edge(e[0], e[1])
+	}
+	mshared := []string{opT(0, "S", []string{"sub", "y"}, []string{"sub2", "y"})}
+	if depth3 {
+		mshared = append(mshared, opT(0, "S3", []string{"sub", "inner", "x0"}))
+	}
 	return &object{
-		kind: "nested", shape: []string{fmt.Sprintf("depth3:%v", depth3)},
+		desc: d, depth: 2,
+		mcall: func(sp spec, si int) string {
+			var own []string
+			if sp.Opt&optLambdaDesignated != 0 {
+				own = append(own, opT(0, fmt.Sprintf("p%d", si), []string{"sub", "y"}))
+				if depth3 {
+					own = append(own, opT(0, fmt.Sprintf("q%d", si), []string{"sub2", "inner", "x1"}))
+				}
+			}
+			if sp.Opt&optLambdaGlobal != 0 {
+				own = append(own, opT(0, fmt.Sprintf("g%d", si)))
+			}
+			return callTerm(vR(selfTag, 0, sp.In, fmt.Sprintf("in%d", sp.In)), mWithShared(sp.Opt, mshared, own), 0)
+		},
+		kind: "nested", shape: []string{fmt.Sprintf("depth3:%v", depth3), fmt.Sprintf("samesub:%v", sameSub)},
 		nIn: 4, paras: allParas,
 		optSet:  []int{0, optLambdaDesignated, optLambdaGlobal, optCbGlobal, optCbThree | optCbDesignated, optCtxHandlers | optLambdaDesignated, optShared, optShared | optLambdaDesignated, optShared | optCbGlobal | optLambdaGlobal},
 		baseCtx: sharedCtx,
